@@ -88,10 +88,10 @@ Lemma ds_self_step2 cfg s tid sid pc cn t' : queue_waits s →
   v_thr s !! tid = Some (SThread (SConnEnd sid) pc cn) →
   v_thr (vrun_thread cfg tid (SThread (SConnEnd sid) pc cn) s) !! tid = Some t' →
   match pc with
-  | VDsDestroy => st_pc t' = if sc_noclear cfg then VEnd else VDsTmRemove (sess_destroy cfg tid sid s).2
+  | VDsDestroy => st_pc t' = ds_next (sess_destroy cfg tid sid s).2
   | VDsTmRemove (c0 :: rest) =>
-      st_pc t' = if (tm_remove (tkey (cl_name c0) (cl_key c0)) s).2 then VDsUnlock c0 rest else VDsTmRemove rest
-  | VDsUnlock c0 rest => st_pc t' = VDsTmRemove rest
+      st_pc t' = if (tm_remove (tkey (cl_name c0) (cl_key c0)) s).2 then VDsUnlock c0 rest else ds_next rest
+  | VDsUnlock c0 rest => st_pc t' = ds_next rest
   | _ => pending_of (st_pc t') = []
   end.
 Proof.
@@ -131,7 +131,9 @@ Proof.
     - left. rewrite Htr in Hev'. by apply elem_of_cons in Hev' as [?|?].
     - left. eapply tr_xs_elem_back in Hev'; [|exact Htr|done]. by apply elem_of_cons in Hev' as [?|?].
     - left. by eapply tr_xs_elem_back.
-    - rewrite Htr in Hev'. apply elem_of_cons in Hev' as [[= -> ->]|?]; [right; eauto 8|by left]. }
+    - rewrite Htr in Hev'. apply elem_of_cons in Hev' as [[= -> ->]|?]; [|by left].
+      destruct Hpc as [Hpc|[Hpc _]]; [right; eauto 8|].
+      exfalso. pose proof (vi_ds_noclear _ _ HI _ _ _ Ht1 Hop) as Q. rewrite Hnc in Q. done. }
   destruct Hdes as [Hev|(tS & l & -> & HtS & HopS0 & HpcS & Hl)].
   2: { (* the destroy step: the list taken is the session's list *)
     assert (tid' ≠ tid) as Hne by (intros ->; simplify_eq; destruct Hacq0 as [? [?|?]]; congruence).
@@ -140,8 +142,8 @@ Proof.
     assert (Hown : ∃ tid t sid z, v_thr s !! tid = Some t ∧ acquirer t sid n k z ∧ post_grant (st_pc t)) by eauto 8 using added_post_grant.
     destruct (HE Hsh tid' t0 sid n k z Ht0 Hacq0 Hadd0) as [(l' & Hl' & Hin)|[Hg|Hd]].
     - left. rewrite Hl in Hl'. injection Hl' as <-. rewrite (vstep_run_lookup cfg s tid tS Hc HtS) in HtS'. destruct tS as [opS pcS cnS]. simpl in *. subst opS pcS.
-      pose proof (ds_self_step2 cfg s tid sid VDsDestroy cnS tS' Hq HtS HtS') as Hpc. simpl in Hpc. rewrite Hnc in Hpc.
-      rewrite Hpc. simpl. by rewrite (proj2 (proj2 (sess_destroy_some cfg tid sid s l Hl))).
+      pose proof (ds_self_step2 cfg s tid sid VDsDestroy cnS tS' Hq HtS HtS') as Hpc. simpl in Hpc.
+      rewrite Hpc, pending_of_ds_next. by rewrite (proj2 (proj2 (sess_destroy_some cfg tid sid s l Hl))).
     - right. by eapply gone_step.
     - exfalso. destruct (si_fresh _ HS sid) as [?|?]; [by rewrite Hl|congruence..]. }
   (* any other step *)
@@ -161,10 +163,10 @@ Proof.
     pose proof (ds_self_step2 cfg s tid sid pcS cnS tS' Hq HtS HtS') as Hpc.
     destruct pcS as [| | | | | | | | | | | | | | | |todo|c0 rest| | | | | |]; simpl in Hin; try (by apply elem_of_nil in Hin).
     + destruct todo as [|c0 rest]; [by apply elem_of_nil in Hin|].
-      destruct (tm_remove (tkey (cl_name c0) (cl_key c0)) s).2 eqn:Hst; rewrite Hpc; simpl; [by left|].
+      destruct (tm_remove (tkey (cl_name c0) (cl_key c0)) s).2 eqn:Hst; rewrite Hpc, ?pending_of_ds_next; simpl; [by left|].
       apply elem_of_cons in Hin as [<-|Hin]; [|by left]. right. simpl in Hst.
       eapply gone_step; [done|done| |done]. by eapply not_stopped_gone.
-    + rewrite Hpc. simpl. apply elem_of_cons in Hin as [<-|Hin]; [|by left]. right. left.
+    + rewrite Hpc, pending_of_ds_next. apply elem_of_cons in Hin as [<-|Hin]; [|by left]. right. left.
       eapply unlock_step_not_live; [done|exact HtS| |done]. right; right. simpl. eauto 8.
   - left. destruct (vstep_thr_other cfg s it tid tS HI Hnr HtS) as (tS'' & HtS'' & _ & Hpc). simplify_eq.
     destruct Hpc as [->|[Hw _]]; [done|]. rewrite Hw in Hin. by apply elem_of_nil in Hin.
